@@ -57,7 +57,7 @@ def make_certs(pid):
     return d
 
 
-VEC_FIELDS = ("via", "wrapper", "scheme", "scase", "host", "port", "cert", "calpn", "salpn", "fault")
+VEC_FIELDS = ("via", "wrapper", "scheme", "scase", "host", "port", "cert", "calpn", "salpn", "fault", "prev", "hist")
 
 
 def vkey(v):
@@ -105,6 +105,11 @@ def _violation_key(rec, clause):
     """Stable key of the failing input class: the clause plus the projection of the vector that clause depends on."""
     v, o = rec["v"], rec["obs"]
     host = {"v6": "[v6]"}.get(v["host"], v["host"])
+    if v["prev"] != "none" and clause in ("NoClear", "OtherNotWrapped", "PoolClass", "Established"):
+        # HISTORY vectors: the class is (what went wrong, how the pool was involved, previous scheme, scheme)
+        what = {"NoClear": "cleartext", "OtherNotWrapped": "wrapped", "PoolClass": "shared", "Established": "established"}[clause]
+        how = ("pooled-reuse" if v["hist"] == "idle" else "pooled-inflight") if o["sharedPrev"] else "own-connection"
+        return "%s:%s:prev=%s;scheme=%s%s" % (what, how, v["prev"], v["scheme"], "" if v["scase"] == "lower" else ";case=upper")
     if clause == "Outcome":
         if o["result"] == "panic" or o.get("taskPanics", 0):
             loc = o.get("panicLoc", "?").rsplit(":", 1)[0]
@@ -131,9 +136,14 @@ def _describe(rec, clauses):
         what += " (%s at %s)" % (o.get("panicMsg", "?"), o.get("panicLoc", "?"))
     if o["result"] == "error":
         what += " (%s)" % o.get("errMsg", "")[:100]
-    return ("clauses %s fail: %s %s via %s (wrapper=%s cert=%s alpn=%s/%s fault=%s): %s; peer saw first=%s raw-marker=%s "
+    hist = ""
+    if v["prev"] != "none":
+        hist = " after %s://%s/ on the same pooled client (%s; that request travelled over %s; same connection: %s)" % (
+            v["prev"], sp.get("authority", "?"), "completed, connection idle" if v["hist"] == "idle" else "still in flight, HTTP/2",
+            o.get("prevCarrier"), o.get("sharedPrev"))
+    return ("clauses %s fail: %s %s via %s%s (wrapper=%s cert=%s alpn=%s/%s fault=%s): %s; peer saw first=%s raw-marker=%s "
             "carrier=%s sni=%s verified=%s handshake=%s" % (
-                "+".join(clauses), "GET", sp["uri"], v["via"], v["wrapper"], v["cert"], v["calpn"], v["salpn"], v["fault"],
+                "+".join(clauses), "GET", sp["uri"], v["via"], hist, v["wrapper"], v["cert"], v["calpn"], v["salpn"], v["fault"],
                 what, o["first"], o["markerRaw"], o["carrier"], o["snis"], o["verified"], o["peerHs"]))
 
 
@@ -159,6 +169,11 @@ def run(pid, tier, seed, t0):
         demo = st.violated
         if st.violated != "AsBuiltHolds":
             raise vlib.ToolError("TlsRoute_asbuilt_strict: TLC did not refute the as-built transcription")
+    if tier == "thorough":
+        # a pool key that files ws/wss under http must be refuted by TLC (seeded-change style variant)
+        km = vlib.tlc("MC_TlsRoute", "TlsRoute_keymerge.cfg", pid, workers=1, timeout=600)
+        if km.violated != "KeyMergeHolds":
+            raise vlib.ToolError("TlsRoute_keymerge: TLC did not refute the merged pool key")
     # 3. vectors
     vecs = _vectors(pid)
     vpath = os.path.join(d, "vectors.json")
@@ -188,7 +203,7 @@ def run(pid, tier, seed, t0):
     groups = collections.OrderedDict()
     # one key per bad record: its first failed clause in a fixed priority order, so that one root cause (which
     # usually falsifies several clauses on the same record) is one class
-    prio = ["Outcome", "NoClear", "OtherNotWrapped", "Name", "FailIsError", "Established"]
+    prio = ["Outcome", "NoClear", "OtherNotWrapped", "PoolClass", "Name", "FailIsError", "Established"]
     for i, clauses in bad.items():
         rec = recs[i - 1]
         c = min(clauses, key=prio.index)
@@ -224,11 +239,15 @@ def run(pid, tier, seed, t0):
         "evaluations": nrec,
         "distinct_nontrivial": nontrivial,
         "rule": "every vector of the cross product via x wrapper x scheme x scheme-case x host form x port x certificate x "
-                "client ALPN x server ALPN x handshake fault (certificate/ALPN/fault pinned where no handshake is attempted), "
+                "client ALPN x server ALPN x handshake fault (certificate/ALPN/fault pinned where no handshake is attempted), plus "
+                "the HISTORY vectors: on one pooled Client with a TLS configuration a previous request with scheme "
+                "http/ws/https/wss to the same authority has completed (HTTP/1.1 connection idle in the pool) or is still in "
+                "flight (HTTP/2), then the request under test; "
                 "%d seeded spelling(s) each, executed on the real TlsTransport / Client; non-trivial = distinct concrete "
                 "(vector, URI, Host header, wiring, truncation point) with a TLS configuration and an https/wss scheme" % k,
         "exhaustive": len(drift_only) == 0 and not bad,
-        "vectors": len(vecs), "spellings": k,
+        "vectors": len(vecs), "history_vectors": sum(1 for x in vecs if x["prev"] != "none"),
+        "history_records_sharing_the_previous_connection": sum(1 for r in recs if r["obs"].get("sharedPrev")), "spellings": k,
         "tlc_coverage": {a: {"distinct": c[0], "taken": c[1]} for a, c in sorted(cov.items())},
         "actions_never_taken": never,
         "monitor": {"records": nrec, "states": o.distinct, "bad_records": len(bad), "violation_classes": len(groups),
@@ -249,6 +268,8 @@ def run(pid, tier, seed, t0):
         "the peer end of the in-memory pipe is the wire: first bytes, raw bytes and the ClientHello are inspected there",
         "IP-literal hosts: RFC 6066 forbids IP literals in server_name, so 'the server name offered is the URI host' is read as "
         "'no other name is offered' and the verified name must be the URI's IP address",
+        "history: one previous request on the same client, same authority text; 'Requests with other schemes are not wrapped' "
+        "is read literally also for pooled connections (an http/ws request must not travel on a TLS connection left by https/wss)",
         "only the enumerated grammar of schemes, host forms, ports, certificates, ALPN offers and faults",
     ]
     vlib.write_evidence(pid, tier, seed, "model_checking", coverage, assumptions, time.time() - t0, unlisted)
